@@ -134,7 +134,9 @@ def has_safe_repr(value: t.Any) -> bool:
     if type(value) in {bool, int, complex, range, str, Markup}:
         return True
 
-    if type(value) in {tuple, list, set, frozenset}:
+    if type(value) in {tuple, list}:
+        # not set / frozenset: their repr follows the string hash order, so a
+        # folded constant would make the generated source depend on the hash seed
         return all(has_safe_repr(v) for v in value)
 
     if type(value) is dict:  # noqa E721
